@@ -192,6 +192,14 @@ class FileCtx:
             raise Undecided('items under contract not found in %s: %s' % (self.rel, sorted(missing)))
 
     def guard_rest(self, why, skip=()):
+        n0_ = len(self.unit.entries)
+        n_ = self._guard_rest(why, skip)
+        for g_ in self.unit.entries[n0_:]:
+            if isinstance(g_, Guard):
+                g_.from_rest = True
+        return n_
+
+    def _guard_rest(self, why, skip=()):
         """hash guards (contracts/trusted_hashes.json) for every method of every impl block of this file that the unit has no
         entry for: code the unit does not verify but whose behaviour its trusted boundary (opaque accessors, stubs) stands for"""
         import os
@@ -443,6 +451,9 @@ class Unit:
                     exp = _trusted_hashes().get(key)
                     if exp is not None and exp != hv:
                         raise Undecided('the text of %s in %s changed, but the unit models it by a trusted stub (%s): no verdict' % (e.fn, e.file, e.why))
+                    if exp is None and getattr(e, 'from_rest', False) and _trusted_hashes() and not os.environ.get('OQ3_TRUSTED_REGEN'):
+                        # a function that did not exist when the rest of this file was pinned (e.g. a new override of a trait default method)
+                        raise Undecided('%s was added to %s, whose functions outside the verified set are pinned (%s): no verdict' % (e.fn, e.file, e.why))
                     self.guards_ok.append('%s:%s' % (e.file, e.fn))
                     continue
                 if got != e.expected:
